@@ -832,7 +832,9 @@ def grid(check, prog):
                 return t[1] == 'is'
             if t[0] == 'cmp' and t[2] == ('call', 'len', (P['arr'],), ()):
                 return True
-            if t[0] == 'cmp' and t[1] == '==' and ('attr', P['arr'], 'ndim') in (t[2], t[3]):
+            if t[0] == 'cmp' and t[1] == '==' and (
+                    ('attr', P['arr'], 'ndim') in (t[2], t[3]) or
+                    ('call', 'numpy.ndim', (P['arr'],), ()) in (t[2], t[3])):
                 # (the array has its x, y [and extra] axes and no z axis yet)
                 return True
             return None
@@ -882,7 +884,9 @@ def grid(check, prog):
                                       for y in subterms(x[2]))]
     by_rows = [c for c in conds if any(y == ('call', 'len', (P['arr'],), ())
                                        for y in subterms(c))]
-    by_rank = [c for c in conds if any(y == ('attr', P['arr'], 'ndim') for y in subterms(c))
+    by_rank = [c for c in conds if any(y in (('attr', P['arr'], 'ndim'),
+                                             ('call', 'numpy.ndim', (P['arr'],), ()))
+                                       for y in subterms(c))
                and any(y == P['extra_dims'] for y in subterms(c))]
     check.require(bool(conds) and not by_rows and len(by_rank) == len(conds),
                   'U3-z-axis-by-rank', 'data_grid z axis',
@@ -1545,9 +1549,7 @@ def channel_selection(check, prog):
             return False
         return None
     planes = resolve(call_args(prog, dg[0]).get('arr'), colour)
-    while planes[0] == 'call' and isinstance(planes[1], tuple) and planes[1][0] == 'attr' \
-            and planes[1][2] == 'squeeze' and not planes[2]:
-        planes = planes[1][1]
+    planes = planes_of(planes)
     ok = planes[0] == 'idx' and planes[1] == arr and planes[2][0] == 'tuple' and \
         len(planes[2][1]) == 3 and all(
             k == ('slice', NONE, NONE, NONE) for k in planes[2][1][:2])
@@ -1626,6 +1628,30 @@ def _leaves(t):
     return _leaves(t[2]) + _leaves(t[3]) if t[0] == 'ite' else [t]
 
 
+def planes_of(t):
+    """The stack of requested planes behind what is handed to data_grid: a single
+    requested plane may have its channel axis dropped -- `.squeeze()`, or
+    `[:, :, 0]` under a test that there is one channel -- which leaves the planes
+    themselves alone."""
+    FULL = ('slice', NONE, NONE, NONE)
+    while True:
+        if t[0] == 'call' and isinstance(t[1], tuple) and t[1][0] == 'attr' and \
+                t[1][2] == 'squeeze' and not t[2]:
+            t = t[1][1]
+            continue
+        if t[0] == 'ite' and any(x[0] == 'call' and x[1] == 'len' for x in subterms(t[1])):
+            a_, b_ = t[2], t[3]
+            def dropped(x, base):
+                return x[0] == 'idx' and x[1] == base and x[2] == ('tuple', (FULL, FULL, num(0)))
+            if dropped(a_, b_):
+                t = b_
+                continue
+            if dropped(b_, a_):
+                t = a_
+                continue
+        return t
+
+
 def requested_channels(check, prog):
     """U3b: `with the requested colour channels`.  For a colour raster and a channel
     request, load_image hands data_grid the planes `arr[:, :, CH]` with CH the
@@ -1663,9 +1689,8 @@ def requested_channels(check, prog):
             continue
         a = call_args(prog, dg[0])
         arr = a.get('arr')
-        if arr is not None and arr[0] == 'call' and isinstance(arr[1], tuple) and \
-                arr[1][0] == 'attr' and arr[1][2] == 'squeeze' and not arr[2]:
-            arr = arr[1][1]
+        if arr is not None:
+            arr = planes_of(arr)
         ok = arr is not None and arr[0] == 'idx' and arr[2][0] == 'tuple' and \
             len(arr[2][1]) == 3 and all(x[0] == 'slice' and x[1:] == (NONE, NONE, NONE)
                                         for x in arr[2][1][:2])
